@@ -54,6 +54,9 @@ type GenOpts struct {
 	TwoSignerPct          int // share of the price transactions that carry the same report by two validators, each signing itself
 	FailingSecondMsg      bool
 	AvoidFailingSecondMsg *int
+	// WideChains: client chains registered during the history may have addresses longer than 20
+	// bytes, tokens are registered on them and deposited (kind depositTok)
+	WideChains bool
 	// SimPct > 0: that share of the transactions is not delivered but run as a node-local
 	// simulation on the recording node (C08, C14: the replicas never see them)
 	SimPct int
@@ -600,8 +603,46 @@ func (m *Machine) draw0(t *rapid.T, g *GenOpts) Action {
 		return a
 	case "regChain":
 		a.Lz = []uint64{101, 102, 103, 104, 105}[uniform(t, 5, "lz")]
+		if g.WideChains && a.Lz >= 103 && pct(t, 60, "wide?") {
+			a.Key = []int{32, 32, 21}[uniform(t, 3, "addrlen")] // a client chain with longer addresses
+		}
+	case "depositTok":
+		a.Actor = actor()
+		a.Op = op()
+		a.Amount = []string{"1", "1000", "123456789"}[uniform(t, 3, "tokamt")]
+		// deposit most of the time, then delegate / undelegate / withdraw / associate
+		a.Mode = []int{0, 0, 0, 1, 1, 2, 3, 4}[uniform(t, 8, "tok-op")]
+		a.Lz, a.N = 101, uniform(t, 1000, "tok")
+		// prefer a token that was registered during this history
+		var regs []int
+		for i, b := range m.Log {
+			if b.Kind == "regToken" && i < len(m.Outs) && m.Outs[i].OK {
+				regs = append(regs, i)
+			}
+		}
+		if len(regs) > 0 && pct(t, 90, "registered-token?") {
+			b := m.Log[regs[uniform(t, len(regs), "which-token")]]
+			a.Lz, a.N = b.Lz, b.N
+		}
+		if a.Mode > 0 {
+			// the follow-up operations aim at a position that exists: an earlier accepted deposit
+			var deps []int
+			for i, b := range m.Log {
+				if b.Kind == "depositTok" && b.Mode == 0 && i < len(m.Outs) && m.Outs[i].OK {
+					deps = append(deps, i)
+				}
+			}
+			if len(deps) > 0 && pct(t, 90, "existing-position?") {
+				b := m.Log[deps[uniform(t, len(deps), "which-deposit")]]
+				a.Lz, a.N, a.Actor = b.Lz, b.N, b.Actor
+				a.Amount = []string{"1", b.Amount}[uniform(t, 2, "part-or-all")]
+			}
+		}
 	case "regToken":
 		a.Lz = []uint64{101, 102}[uniform(t, 2, "lz")]
+		if g.WideChains && pct(t, 50, "new-chain?") {
+			a.Lz = []uint64{103, 104, 105}[uniform(t, 3, "lz2")]
+		}
 		a.N = uniform(t, 1000, "tok")
 		if pct(t, 15, "known-token-name?") {
 			// the name of a token the oracle already prices: the new asset is bound to its feed
